@@ -1,5 +1,5 @@
 (* Correspondence for C11: observations of gaddlemaps.components.System against Model/SystemRec.v *)
-From Coq Require Import List Arith ZArith Bool.
+From Coq Require Import List Arith ZArith NArith Bool.
 From GM Require Import Base.Res Model.SystemRec.
 Import ListNotations.
 
@@ -17,7 +17,7 @@ Arguments OErr {A} _.
 
 (* one molecule as observed: (name, index of its first atom in the file (0-based), number of atoms,
    residue numbers of its residues) *)
-Definition mobs := (nat * nat * nat * list nat)%type.
+Definition mobs := (nat * nat * nat * list N)%type.   (* residue numbers in N: they reach 99999 *)
 
 Record obs := mkObs {
   o_tab : list mobs;                        (* the distinct molecules seen; the fields below index it *)
@@ -28,7 +28,7 @@ Record obs := mkObs {
   o_slices : list ((option Z * option Z * option Z) * robs (list nat))   (* System[a:b:c] *)
 }.
 
-Definition gfile := list (nat * nat * list nat).    (* (resid, resname, atom names) per residue *)
+Definition gfile := list (N * nat * list nat).    (* (resid, resname, atom names) per residue *)
 
 Definition residues_of (f : gfile) : list residue :=
   map (fun r => match r with (_, rn, names) => mkRes rn names end) f.
@@ -46,7 +46,7 @@ Definition describe (f : gfile) (st : sys) (i : inst) : res mobs :=
 Definition mobs_eqb (x y : mobs) : bool :=
   match x, y with
   | (n1, s1, c1, r1), (n2, s2, c2, r2) =>
-    (n1 =? n2) && (s1 =? s2) && (c1 =? c2) && list_eqb Nat.eqb r1 r2
+    (n1 =? n2) && (s1 =? s2) && (c1 =? c2) && list_eqb N.eqb r1 r2
   end.
 
 Definition cmp_res {A B} (eqb : A -> B -> bool) (m : res A) (o : robs B) : nat :=
